@@ -37,6 +37,8 @@ class AttributeDict(dict):
 
 def escape_special_string_characters(string: str) -> str:
     """Escapes all occurrences of special characters."""
+    # Escape all backslashes that are not used to escape a " or ' character
+    string = re.sub(r"\\(?!['\"])", r"\\\\", string)
     # Replace " or ' with \\" or \\' if not already escaped
     string = re.sub(r"(^|[^\\])('|\")", r"\1\\\2", string)
     # Replace other special characters
